@@ -237,11 +237,19 @@ def op_c16(args):
         if cmd.startswith("-"):
             raise Reject("argparse would not take this as the value of -c")
         eff = cmd.replace("\\n", "\n")
-        argv = ["-c", cmd]
+        argv = ["-c" + cmd] if args.get("attached") else ["-c", cmd]
     elif how == "e":
-        expr = " + linesep + ".join(repr(l) for l in src.split("\n"))
+        style = args.get("e_style", 0)
+        parts = src.split("\n")
+        if style == 1:
+            expr = "linesep.join([%s])" % ", ".join(repr(l) for l in parts)
+        elif style == 2:
+            # linesep used inside a nested scope of the expression
+            expr = "''.join(l + linesep for l in [%s])[:-len(linesep)]" % ", ".join(repr(l) for l in parts)
+        else:
+            expr = " + linesep + ".join(repr(l) for l in parts)
         eff = eval(expr, {"linesep": os.linesep})
-        argv = ["-e", expr]
+        argv = ["-e" + expr] if args.get("attached") else ["-e", expr]
     elif how == "m":
         _modcount[0] += 1
         mod = "verifmod_%d_%d" % (os.getpid(), _modcount[0])
@@ -254,7 +262,7 @@ def op_c16(args):
         importlib.invalidate_caches()
         with io.open(path, "rb") as f:
             eff = f.read()
-        argv = ["-m", mod]
+        argv = ["-m" + mod] if args.get("attached") else ["-m", mod]
         filename = path
     else:
         raise Reject("unknown source option")
@@ -287,6 +295,10 @@ def op_c16(args):
         status, out, err, exc = run_main_inprocess(argv)
         v.features["inprocess_runs"] += 1
     v.features["how_" + how] += 1
+    if args.get("attached") and how != "file":
+        v.features["attached_option_value"] += 1
+    if how == "e":
+        v.features["e_style_%d" % args.get("e_style", 0)] += 1
     for f in flags:
         v.features["flag_" + f] += 1
     v.info["nontrivial"] = len([f for f in flags if f != "--no-normalize"]) >= 2 or len(flags) >= 2
